@@ -2,6 +2,7 @@ from numpy import zeros, array, sign, linalg
 
 from .base import NumericalPropagator
 from ..orbits.ephem import Ephem
+from ..dates import Date
 from ..orbits.man import ImpulsiveMan, ContinuousMan
 
 __all__ = ["KeplerNum"]
@@ -255,11 +256,27 @@ class KeplerNum(NumericalPropagator):
         # (ie step), we use an Ephem object for interpolation
         ephem = [orb]
 
+        # A range whose stop is before its start is integrated backward
+        backward = stop < start
+        _step = -self.step if backward else self.step
+
+        # Every output which is not an integration point (explicit step or dates, events
+        # of the listeners) is interpolated, for which Ephem needs DEFAULT_ORDER points
+        interp = dates is not None or step is not None or bool(listeners)
+
         date = start
-        while date < stop:
-            real_step, orb = self._make_step(orb, self.step)
+        while ((date > stop) if backward else (date < stop)) or (
+            interp and len(ephem) < Ephem.DEFAULT_ORDER
+        ):
+            real_step, orb = self._make_step(orb, _step)
             ephem.append(orb)
             date += real_step
+
+        if backward and dates is None:
+            # Ephem.iter takes start and stop from its own span : name the dates
+            dates = Date.range(
+                start, stop, _step if step is None else step, inclusive=True
+            )
 
         ephem = Ephem(ephem)
 
